@@ -314,22 +314,19 @@ def rule_force_terms_flag(ctx, rule='R01.12'):
     tus = cfront.load_tus()
     disp = tus['integrator.c'].func('reb_integrator_part1')
     targets = {}
-    cur = None
-    sw = [x for x in walk(cfront.body(disp)) if x.get('kind') == 'SwitchStmt']
-    anchor(len(sw) == 1, 'switch over r->integrator in reb_integrator_part1')
-    for st in sw[0]['inner'][-1].get('inner', []):
-        node = st
-        while node.get('kind') in ('CaseStmt', 'DefaultStmt'):
-            if node['kind'] == 'CaseStmt':
-                for x in walk(node['inner'][0]):
-                    if x.get('kind') == 'DeclRefExpr' and x['referencedDecl'].get('kind') == 'EnumConstantDecl':
-                        cur = x['referencedDecl']['name']
-            else:
-                cur = None
-            node = node['inner'][-1]
-        for e in walk(node):
-            if e.get('kind') == 'CallExpr' and cur and (callee_name(e) or '').endswith('_part1'):
-                targets[cur] = callee_name(e)
+    # the dispatch may be a switch or an if / else-if chain over (a local holding) r->integrator: the constant is read off
+    # the path conditions of each call (case labels are path conditions)
+    from . import pathcond
+    pcs = pathcond.conditions(disp)
+    for e in walk(cfront.body(disp)):
+        if e.get('kind') == 'CallExpr' and (callee_name(e) or '').endswith('_part1'):
+            consts = []
+            for c in pcs.get(id(e), []):
+                m = re.search(r'==\s*\(?(REB_INTEGRATOR_\w+)', c.replace(' ', '')) if not c.replace(' ', '').startswith('!') else None
+                if m:
+                    consts.append(m.group(1))
+            if consts:
+                targets[consts[-1]] = callee_name(e)
     anchor(len(targets) >= 10, 'part1 functions dispatched by reb_integrator_part1 (found %d)' % len(targets))
     # gravity modes whose routine reads the flag: case labels of the switch in reb_calculate_acceleration whose statements mention it
     grav = tus['gravity.c'].func('reb_calculate_acceleration')
